@@ -343,10 +343,11 @@ impl Prop for C16 {
                 if zero_rich {
                     // unique by construction (counter < 256 in this mode)
                     let c = counter as u8;
-                    p.push(match counter % 4 {
+                    p.push(match counter % 5 {
                         0 => (Ipv4Addr::new(10, c, 0, 0), u16::from(c) << 8), // ends in three zero bytes
                         1 => (Ipv4Addr::new(0, 0, 0, 0), u16::from(c)),       // starts with five zero bytes
                         2 => (Ipv4Addr::new(0, 0, 0, c), 256),
+                        4 => (Ipv4Addr::new(c, 1, 2, 3), 0), // port 0: listed, so part of the listing
                         _ => (Ipv4Addr::new(c, 0, 0, 0), 80),
                     });
                     continue;
